@@ -51,6 +51,10 @@ def gen_cases(tier, seed):
                       "init": bool(rng.random() < 0.25), "eval_style": str(rng.choice(["grid", "rational", "irrational", "ends", "dense"])),
                       "disc": bool(i % 8 == 0)})
         # where the interaction comes from: the register (default), a user matrix with exact zeros, an all-zero matrix, a cutoff that removes every pair
+        if n >= 9:  # dense reference: one 2^n eigendecomposition per distinct step Hamiltonian
+            cases[-1]["dt"] = float(rng.choice([10, 33, 5000]))
+        elif n >= 7 and cases[-1]["dt"] < 2.5:
+            cases[-1]["dt"] = 2.5
         im = str(rng.choice(["register"] * 7 + ["custom-sparse", "zero", "cutoff-all"]))
         cases[-1]["imat"] = im
         if im in ("zero", "cutoff-all") and n >= 2:
